@@ -6,6 +6,33 @@ STD_ASSUME = ["the Lean model is tied to /repo by the T1 extractor and the T2 co
 HOOK_COMMITS = []
 
 PROPS = {
+    "C20": {
+        "claimed": True,
+        "model_modules": ["TemplVerif.Model.Proxy"],
+        "proof_modules": [],
+        "level_text": "Lean 4 theorems about the model of proxy.modifyResponse: C20_passthrough (skip header, non-HTML, or an encoding other than "
+                      "identity/gzip/br => the response is returned unchanged: body bytes, Content-Length, headers), C20_htmx, and C20_html (for "
+                      "identity/gzip/br HTML, for EVERY codec satisfying dec(enc x) = x and every HTML rewriter: what the browser decodes is the "
+                      "rewritten document, Content-Length = bytes sent, encoding/content-type/CSP headers untouched). The model is compared on every "
+                      "run with the REAL proxy end to end (httptest upstream -> proxy.New handler -> client) over documents x encodings x content "
+                      "types x CSP shapes x skip/HX-Request, with an independent x/net/html implementation of 'append the script to body' as oracle "
+                      "and the model's parseNonce deciding the nonce.",
+        "level_note": "Partial by design: 'same document' rests on golang.org/x/net/html (parameter; render-stability law monitored) and on the gzip/"
+                      "brotli codecs (parameters with the round-trip law); parseNonce is modelled exactly (strings.Fields with unicode.IsSpace) and "
+                      "compared through the nonce the real proxy puts on the script; CSP directive names are matched case-sensitively as in the "
+                      "code (observation: browsers match them case-insensitively).",
+        "rule": "18 documents (empty ... 300 KB, 3.6 MB in thorough; non-ASCII, existing scripts, no body, framesets, foreign content) x 9 encoding labels "
+                "(identity, gzip, br, deflate, zstd, identity-label, GZIP, 'gzip, br', x-gzip) ; 10 content types x 4 encodings; 19 CSP shapes x 2 "
+                "encodings; 5 skip-header values x HX-Request x 3 encodings; truncated compressed streams; random fragment documents x random "
+                "everything. Non-trivial = anything but an identity-encoded non-HTML pass-through.",
+        "exhaustive": False,
+        "proved": ["C20_passthrough", "C20_htmx", "C20_html (for all codecs with the round-trip law and all rewriters)"],
+        "monitored": ["model = real proxy end to end (status, body bytes, decoded body, Content-Length, Content-Encoding, Content-Type)",
+                      "x/net/html render stability law", "parseNonce via the nonce attribute of the inserted script"],
+        "partial": ["HTML parse/render and compression codecs are parameters, not verified"],
+        "trusted_base": ["golang.org/x/net/html parse/render", "compress/gzip, andybalholm/brotli", "net/http reverse proxy plumbing"],
+        "assumptions": STD_ASSUME,
+    },
     "C05": {
         "claimed": False, "na_reason": "proofs in progress (model, correspondence, T1 pins done; C05_main being proved)",
         "model_modules": ["TemplVerif.Model.Css", "TemplVerif.Spec.CssScan"],
@@ -34,7 +61,7 @@ PROPS = {
         "assumptions": STD_ASSUME,
     },
     "C03": {
-        "claimed": False, "na_reason": "proofs in progress (model, correspondence and T1 theorems done; general lexing theorems being proved)",
+        "claimed": True,
         "model_modules": ["TemplVerif.Model.Js", "TemplVerif.Spec.JsLex"],
         "proof_modules": ["TemplVerif.Proofs.Js"],
         "thorough_shards": 8,
